@@ -161,6 +161,7 @@ func TestVerif_C03(t *testing.T) {
 	ev.Bound("stream_len_all_schedules", lenSched)
 	ev.Bound("deviations", dev)
 	capped := false
+	rechecked := 0
 	one := func(c c03Case, maxDev int) {
 		if capped {
 			return
@@ -176,6 +177,14 @@ func TestVerif_C03(t *testing.T) {
 		}
 		seqx.Explore(seqx.Options{MaxDev: maxDev}, func(ch *seqx.Chooser) {
 			k, w, res := c03Run(t, c, ch)
+			if rechecked < 48 {
+				// determinism: the same schedule must produce the same observation trace
+				rechecked++
+				_, _, res2 := c03Run(t, c, seqx.NewReplay(append([]int{}, ch.Trail...)))
+				if syncShowCmds(res.Received) != syncShowCmds(res2.Received) || fmt.Sprint(res.Steps) != fmt.Sprint(res2.Steps) {
+					t.Fatalf("nondeterminism: stream %v config %+v schedule %v gave two different traces:\n%s\n%s", syncNames(c.Word), c.Cfg, res.Steps, syncShowCmds(res.Received), syncShowCmds(res2.Received))
+				}
+			}
 			n++
 			trans += int64(len(res.Steps))
 			cc := c
@@ -248,4 +257,5 @@ func TestVerif_C03(t *testing.T) {
 	ev.Eval(n)
 	ev.Trace(n)
 	ev.Trans(trans)
+	ev.Count("schedules_replayed_twice_with_identical_trace", int64(rechecked))
 }
